@@ -49,7 +49,8 @@ inductive Refusal where
   | overflow          -- OverflowError: Python int too large to convert to SQLite INTEGER
   | unicode           -- UnicodeEncodeError: a lone surrogate cannot be encoded as UTF-8
   | closed            -- AttributeError: write after close (`self.con` is None)
-  | ddl               -- sqlite3.OperationalError: duplicate column name (identifiers are case-insensitive)
+  | ddl               -- sqlite3.OperationalError: duplicate column name (identifiers are case-insensitive), or a table
+                      -- name SQLite reserves (prefix `sqlite_`)
   | arity             -- not reachable from the real code: a row with the wrong number of values
   deriving DecidableEq, Repr
 
@@ -161,8 +162,12 @@ def hasIdentClash : List Text → Bool
   | [] => false
   | n :: ns => ns.any (sameIdent n) || hasIdentClash ns
 
+/-- SQLite reserves every object name beginning with `sqlite_` (ASCII-case-insensitively) for internal use:
+    `CREATE TABLE "sqlite_x"` is an OperationalError ("object name reserved for internal use"). -/
+def reservedName (n : Text) : Bool := (n.take 7).map lowerAscii == [115, 113, 108, 105, 116, 101, 95]
+
 def ddlOk (T : Tables) (d : Desc) : Bool :=
-  (ddl T d).all (fun t => !(sameIdent t.name d.name) || !hasIdentClash (colNames t))
+  !reservedName d.name && (ddl T d).all (fun t => !(sameIdent t.name d.name) || !hasIdentClash (colNames t))
 
 /-- declared type of a column (looked up the way SQLite resolves the name in the INSERT) -/
 def declType (t : Table) (col : Text) : String :=
